@@ -132,10 +132,11 @@ theorem entities_bad_dataset_rejected (row : Rows.Cells) (ds : Str) (hcols : Ent
 theorem save_to_in_repeat_rejected (decl : Bool) (root : Str) (n : Nat) (st : List Entities.Frame)
     (r : Rows.Cells) (rs : List Rows.Cells) (t name : Str)
     (ht : Rows.get r "type" = some t) (he : Rows.matchControl "end" false t = none)
+    (hna : t ≠ Entities.auditType)
     (hn : Rows.get r "name" = some name) (hcell : Entities.truthy (lookup Entities.savetoKey r) = true)
     (hbad : Entities.inRepeat st = true ∨ ∃ c, Rows.matchControl "begin" true t = some c) :
     ∃ m, Entities.walk decl root n st (r :: rs) = .error (.msg m) :=
-  C19.saveto_in_repeat_or_on_group_rejected decl root n st r rs t name ht he hn hcell hbad
+  C19.saveto_in_repeat_or_on_group_rejected decl root n st r rs t name ht he hna hn hcell hbad
 
 end Pyxv.C17
 
